@@ -530,6 +530,8 @@ inline int run_cases(int argc, char** argv, const std::function<J(const J&)>& fn
         return 2;
     }
     long long skip = argc > 3 ? atoll(argv[3]) : 0;
+    if (const char* w = getenv("VH_WATCHDOG"))
+        watchdog_s = static_cast<unsigned>(atoi(w)); // the confirmation re-run of a timed-out case gets more time
     std::ifstream in(argv[1]);
     if (!in)
     {
